@@ -5,6 +5,7 @@ Layers (DESIGN.md §1):  L1 Lean theorems (built + axiom-audited on every run),
 L2 tie = translator-regenerated Gen modules + correspondence harness run against /repo's
 current working tree, L3 Lean-evaluated checkers on the implementation's exact outputs.
 Exit 0 = property held on everything explored; exit 1 + VIOLATION line otherwise."""
+import re
 import argparse, importlib, json, os, sys, time, collections
 
 sys.path.insert(0, os.path.dirname(os.path.abspath(__file__)))
@@ -40,7 +41,20 @@ def main():
     # ---- L2a translator
     ok, log = C.run_extract()
     if not ok:
-        broken.append({'what': 'translator', 'name': 'tools/extract.py', 'log': log[-2000:]})
+        # a generator that fails breaks this property's tie only when one of the Gen modules it writes is imported
+        # (transitively) by this property's Lean modules or driver module; errors without a module tag count for everyone
+        need = C.gen_closure(spec.get('lean_modules', []) + ['Driver.' + pid])
+        mine, others = [], []
+        for ln in log.splitlines():
+            m = re.match(r'EXTRACT-ERROR \S+ \[([\w,]*)\]:', ln)
+            if m and m.group(1) and not (set(m.group(1).split(',')) & need):
+                others.append(ln)
+            elif ln.strip():
+                mine.append(ln)
+        if mine:
+            broken.append({'what': 'translator', 'name': 'tools/extract.py', 'log': '\n'.join(mine)[-2000:]})
+        if others:
+            notes.append('translator errors in Gen modules this property does not import (not counted): ' + '; '.join(o[:160] for o in others))
 
     # ---- C++ builds from /repo's current working tree (sanitized library + harness)
     lib, exe = None, None
